@@ -65,13 +65,14 @@ static int parse_value_lit(toks *t, cif_value_tp **out, int *owned) {
     *owned = 1;
     if (strcmp(k, "?") == 0) return cif_value_create(CIF_UNK_KIND, out) == CIF_OK ? 0 : -2;
     if (strcmp(k, ".") == 0) return cif_value_create(CIF_NA_KIND, out) == CIF_OK ? 0 : -2;
-    if ((k[0] == 'c' || k[0] == 'b' || k[0] == 'n') && k[1] == ':') {
+    if ((k[0] == 'c' || k[0] == 'b' || k[0] == 'n' || k[0] == 'N') && k[1] == ':') {   /* N: a number marked as quoted */
         UChar *u = tok_ustr(k + 2, NULL); int rc;
         if (cif_value_create(CIF_UNK_KIND, out) != CIF_OK) { h_free(u); return -2; }
-        if (k[0] == 'n') {
+        if (k[0] == 'n' || k[0] == 'N') {
             UChar *lib = cif_u_strdup(u);
             rc = lib ? cif_value_parse_numb(*out, lib) : CIF_MEMORY_ERROR;
             if (rc != CIF_OK && lib) free(lib);
+            if (rc == CIF_OK && k[0] == 'N') rc = cif_value_set_quoted(*out, CIF_QUOTED);
         } else {
             rc = cif_value_copy_char(*out, u);
             if (rc == CIF_OK && k[0] == 'b') rc = cif_value_set_quoted(*out, CIF_NOT_QUOTED);
